@@ -566,6 +566,10 @@ fn random_spec(r: &mut Rng, exotic: bool) -> Spec14 {
       pool.push(Id { did, pq: 0, frag: Some(frag) });
     }
     pool.push(Id { did, pq: 1, frag: Some(1) });
+    // ids that carry a query (with and without a path): the rewriting must keep it
+    pool.push(Id { did, pq: 2, frag: Some(1) });
+    pool.push(Id { did, pq: 3, frag: Some(2) });
+    pool.push(Id { did, pq: 2, frag: Some(3) });
   }
   // own ids are more likely
   for frag in 5..=9 {
@@ -653,7 +657,12 @@ pub fn gen(thorough: bool, seed: u64, out: &mut impl Write) {
   };
   emit(out, &good);
   for pos in 0..7 {
-    for v in [0u8, 1, 2, 3, 0x44, 0x49, 0x64, 0xff, good[pos].wrapping_add(1), good[pos].wrapping_sub(1)] {
+    // marker, version and encoding bytes: EVERY value; the two length bytes: a selection (their meaning is numeric)
+    let vals: Vec<u8> = if pos < 5 { (0..=255u8).collect() } else { vec![0u8, 1, 2, 3, 0x44, 0x49, 0x64, 0xff, good[pos].wrapping_add(1), good[pos].wrapping_sub(1)] };
+    for v in vals {
+      if v == good[pos] {
+        continue;
+      }
       let mut x = good.clone();
       x[pos] = v;
       emit(out, &x);
